@@ -30,9 +30,11 @@ package performance
 // The daily performance factor: with v0/v1 the sums of the values at the start/end of the day, inflow
 // and outflow the external flows of the day (outflows are negative numbers):
 //     perf = 1                                  if nothing changed and nothing flowed
+//     perf = 1                                  if start value + inflow = 0 and end value - outflow = 0 (only flows on an empty base)
 //     perf = (v1 - outflow) / (v0 + inflow)     otherwise
 // Ghosts s0, s1, fin, fout are the sums the four loops compute (running sums over the maps).
-//@ def perfOf(v0 float64, v1 float64, inflow float64, outflow float64) float64 := (v0 == v1 && inflow == 0.0 && outflow == 0.0) ? 1.0 : (v1 - outflow) / (v0 + inflow)
+//@ def perfOf(v0 float64, v1 float64, inflow float64, outflow float64) float64 := (v0 == v1 && inflow == 0.0 && outflow == 0.0) ? 1.0
+//@     : ((v0 + inflow == 0.0 && v1 - outflow == 0.0) ? 1.0 : (v1 - outflow) / (v0 + inflow))
 //@ func Performance
 //@   requires dpv != nil
 //@   modifies nothing
@@ -53,7 +55,10 @@ package performance
 //
 // The factor is 1 (a return of 0%) when prices are unchanged and the value only changed by external
 // deposits and withdrawals (v1 = v0 + inflow + outflow), and end value over start value without flows.
-//@ lemma perf_flow_only [C20]: forall v0 float64, fin float64, fout float64 :: v0 + fin != 0.0 ==> perfOf(v0, v0 + fin + fout, fin, fout) == 1.0
+// (perf_flow_only carries NO side condition: the statement promises 0% for every flow-only period, also
+// for a withdrawal from an empty portfolio or a deposit that exactly settles a negative one, where start
+// value plus inflow is zero.)
+//@ lemma perf_flow_only [C20]: forall v0 float64, fin float64, fout float64 :: perfOf(v0, v0 + fin + fout, fin, fout) == 1.0
 //@ lemma perf_no_flow [C20]: forall v0 float64, v1 float64 :: v0 != v1 ==> perfOf(v0, v1, 0.0, 0.0) == v1 / v0
 //
 // Perf (day end): days outside the reporting window AND days before the first reported period (with
